@@ -131,6 +131,7 @@ private:
 	}
 #else
 		int n;
+		ASL_VERIF_POINT(10, this);
 		if((n = pthread_create(&_thread, 0, f, arg)))
 		{
 			ASL_BAD_ALLOC();
@@ -139,6 +140,7 @@ private:
 	void run(Function_ f, ThreadAttrib& a , void* arg=0)
 	{
 		int n;
+		ASL_VERIF_POINT(10, this);
 		if((n = pthread_create(&_thread, *a, f, arg)))
 		{
 			ASL_BAD_ALLOC();
@@ -148,13 +150,17 @@ private:
 	static ASL_THREADFUNC_RET ASL_THREADFUNC_API begin(void* p)
 	{
 		Thread* t = (Thread*)p;
+		ASL_VERIF_POINT(11, t);
 		bool deleteOnExit = t->_deleteOnExit;
 		t->run();
 		if (deleteOnExit) {
 			delete t;
+			ASL_VERIF_POINT(13, t);
 			return 0;
 		}
+		ASL_VERIF_POINT(12, t);
 		t->_threadFinished = true;
+		ASL_VERIF_POINT(13, t);
 		return 0;
 	}
 #ifdef ASL_EXP_THREADING
@@ -162,21 +168,29 @@ private:
 	static void ASL_THREADFUNC_API beginf(void* p)
 	{
 		Context<Func> s = *(Context<Func>*)p;
+		ASL_VERIF_POINT(11, s.t);
 		((Context<Func>*)p)->ready = true;
+		ASL_VERIF_POINT(17, p);
 		s.f();
+		ASL_VERIF_POINT(12, s.t);
 		s.t->_threadFinished = true;
+		ASL_VERIF_POINT(13, s.t);
 	}
 	template<class Func>
 	static void ASL_THREADFUNC_API beginfN(void* p)
 	{
 		if (!p) return;
 		Context<Func> s = *(Context<Func>*)p;
+		ASL_VERIF_POINT(11, s.t);
 		((Context<Func>*)p)->ready = true;
+		ASL_VERIF_POINT(17, p);
 		for (int i = s.i0; i < s.i1; i += s.s)
 		{
 			s.f(i);
 		}
+		ASL_VERIF_POINT(12, s.t);
 		s.t->_threadFinished = true;
+		ASL_VERIF_POINT(13, s.t);
 	}
 #endif
 public:
@@ -241,6 +255,7 @@ public:
 		WaitForSingleObject(_thread, INFINITE);
 #else
 		void* ret;
+		ASL_VERIF_POINT(14, this);
 		pthread_join(_thread, &ret);
 		_thread = 0;
 #endif
@@ -279,7 +294,9 @@ public:
 	{
 		Context<Func> s = { f, t, false, 0, 0, 0 };
 		t->run((Function_)Thread::beginf<Func>, (void*)&s);
+		ASL_VERIF_POINT(15, &s);
 		while (!s.ready) {}
+		ASL_VERIF_POINT(16, &s);
 		return *t;
 	}
 	/**
@@ -312,7 +329,9 @@ public:
 			threads << new Thread;
 			Context<F> s = { f, threads.last(), false, i0 + i, i1, n };
 			threads.last()->run((Function_)Thread::beginfN<F>, (void*)&s);
+			ASL_VERIF_POINT(15, &s);
 			while (!s.ready) {}
+			ASL_VERIF_POINT(16, &s);
 		}
 		foreach(Thread* t, threads)
 		{
